@@ -57,7 +57,11 @@ for it in range(N):
         for d in range(1, n):
             root.update(idx[d])
             if d == dyn_at:         # a child strategy attached during the run: not updated yet (its own clock is still at the start), funded at once
+                looked = rs.rand() < 0.5
+                if looked: root.universe                                  # a read of the window placed before the child exists changes nothing afterwards
                 dyn = Strategy("dyn", [], [], parent=root); dyn.setup_from_parent(); root.allocate(1000.0, "dyn")
+                evals += 1
+                if "dyn" not in root.universe.columns: fails.append(dict(clause="a-read-of-the-universe-before-a-child-is-attached-changes-nothing", it=it, date=str(idx[d].date()), looked_at_before=bool(looked), columns=list(map(str, root.universe.columns))))
             for _ in range(int(rs.randint(1, 5))):
                 s = strats[int(rs.randint(len(strats)))]; k = str(rs.choice(decl[s.name]))
                 op = str(rs.choice(["adjust", "fund", "rebalance", "close", "transact", "update", "flatten", "wash"]))
